@@ -6,6 +6,7 @@ import functools
 import re
 
 from ..pymodel import package
+from ..core import AnalysisError
 
 EXPLANATION = (
     "R1 in every module that takes part in building or rendering a network, no for / comprehension / join / list() iterates a set-typed value "
@@ -300,9 +301,30 @@ def stateless_renderer(ctx, pkg, rule):
     from .c14 import _self_writes
     renderers, helpers = _renderer_classes(pkg)
     n = 0
+    def construction_of(ci):
+        """the construction methods of a class and the private helpers reached from them ONLY (a part of __init__ that was extracted)"""
+        callers = {}
+        for mname, m in ci.methods.items():
+            for c in ast.walk(m):
+                if isinstance(c, ast.Call) and isinstance(c.func, ast.Attribute) and isinstance(c.func.value, ast.Name) and c.func.value.id == "self":
+                    callers.setdefault(c.func.attr, set()).add(mname)
+        # (a method handed on as a value -- `cb = self._setup` -- may run any time: not construction)
+        loose = {x.attr for m in ci.methods.values() for x in ast.walk(m) if isinstance(x, ast.Attribute) and isinstance(x.value, ast.Name) and x.value.id == "self"
+                 and isinstance(x.ctx, ast.Load)} - set()
+        called = {c.func.attr for m in ci.methods.values() for c in ast.walk(m) if isinstance(c, ast.Call) and isinstance(c.func, ast.Attribute)}
+        cons = {m for m in ci.methods if m in CONSTRUCTION}
+        for _ in range(4):
+            more = {m for m in ci.methods if m not in cons and m.startswith("_") and not m.startswith("__") and callers.get(m) and callers[m] <= cons and m in called
+                    and sum(1 for mm in ci.methods.values() for x in ast.walk(mm) if isinstance(x, ast.Attribute) and x.attr == m) ==
+                    sum(1 for mm in ci.methods.values() for c in ast.walk(mm) if isinstance(c, ast.Call) and isinstance(c.func, ast.Attribute) and c.func.attr == m)}
+            if not more:
+                break
+            cons |= more
+        return cons
     for ci in renderers:
+        cons = construction_of(ci)
         for mname, fn in sorted(ci.methods.items()):
-            if mname in CONSTRUCTION or not isinstance(fn, ast.FunctionDef):
+            if mname in cons or not isinstance(fn, ast.FunctionDef):
                 continue
             n += 1
             w = _self_writes(fn)
@@ -1179,7 +1201,8 @@ def krome_reset(ctx, pkg, rule="R4"):
     # cls of a method that was not followed, a base-class initialize
     unread = sorted({ast.unparse(c.func)[:40] for part in with_helpers(ini) for c in ast.walk(part) if isinstance(c, ast.Call) and (
         (isinstance(c.func, ast.Name) and c.func.id in ("setattr", "vars", "super")) or
-        (isinstance(c.func, ast.Attribute) and isinstance(c.func.value, ast.Name) and c.func.value.id == "cls" and not _private(c.func.attr)))}
+        (isinstance(c.func, ast.Attribute) and isinstance(c.func.value, ast.Name) and c.func.value.id == "cls" and not _private(c.func.attr)) or
+        any(isinstance(a_, ast.Name) and a_.id == "cls" for a_ in list(c.args) + [k_.value for k_ in c.keywords]))}
         | {"__dict__" for part in with_helpers(ini) for n in ast.walk(part) if isinstance(n, ast.Attribute) and n.attr == "__dict__"})
     for a in sorted(mutated):
         if a not in reset and unread:
@@ -1223,7 +1246,16 @@ def krome_reset(ctx, pkg, rule="R4"):
     for mname in ("add_reaction_from_file", "add_reaction"):
         # a reset that happens on ENTERING a `with` block (a context manager of the module bracketing the reading) is the reset
         # written in front of the block
-        fn = inline_context_managers(copy.deepcopy(net.methods[mname]), module_level)
+        # (private helpers of the class / module the method was split into -- the reset, the reading loop -- are put back first, so
+        # that order and conditions are read as if nothing had been extracted; the parsing call itself stays the call it is.  The
+        # statements of a helper carry the line numbers of where they were written: renumbered in statement order)
+        base_fn = net.methods[mname]
+        try:
+            exp = ast.parse(ast.unparse(pkg.expanded("Network", mname, keep=("_add_reaction",)))).body[0]
+            ast.increment_lineno(exp, base_fn.lineno - 1)
+        except (AnalysisError, RecursionError, SyntaxError, IndexError):
+            exp = copy.deepcopy(base_fn)
+        fn = inline_context_managers(exp, module_level)
         fl = Flow(fn, NF)
         init_calls = [f for f in fl.facts if f.kind == "call" and f.target == "initialize" and f.value is not None and f.value[0] == "meth" and not f.value[3]]
         reads_lines = [n.lineno for n in ast.walk(fn) if isinstance(n, ast.Call) and ast.unparse(n.func) == "self._add_reaction"]
